@@ -52,6 +52,7 @@ def check_spec(acc: Acc, cfg, spec, payload: dict) -> None:
 
     where = cfg.sid()
     acc.count("evaluations")
+    sig0 = spec_signature(spec)
     try:
         with deadline(60):
             back = CombinatorialSpecification.from_dict(rt(spec.to_jsonable()))
@@ -105,7 +106,22 @@ def check_spec(acc: Acc, cfg, spec, payload: dict) -> None:
                           "after counting with it, the specification is no longer equal to its JSON round trip", payload)
     except Exception as e:  # noqa: BLE001
         acc.violation("round-trip-raises", call_site(e), where, f"second round trip: {type(e).__name__}: {str(e)[:200]}", payload)
-    acc.nt((where, spec_signature(spec)))
+    # the dictionary handed to from_dict directly (no JSON text in between), then dumped again:
+    # loading may consume the dictionary it is given, the specification must not be affected
+    try:
+        first = spec.to_jsonable()
+        text = json.dumps(first, sort_keys=True)
+        direct = CombinatorialSpecification.from_dict(first)
+        if not (direct == spec and spec == direct):
+            acc.violation("spec!=round-trip", "CombinatorialSpecification.from_dict", where,
+                          "loaded from the dumped dictionary itself (no JSON text in between) the specification is not equal to the original", payload)
+        second = json.dumps(spec.to_jsonable(), sort_keys=True)
+        if second != text:
+            acc.violation("dump-not-repeatable", "CombinatorialSpecification.to_jsonable", where,
+                          f"dumping again after the first dictionary was loaded gives another result ({len(text)} vs {len(second)} characters)", payload)
+    except Exception as e:  # noqa: BLE001
+        acc.violation("round-trip-raises", call_site(e), where, f"direct dictionary round trip: {type(e).__name__}: {str(e)[:200]}", payload)
+    acc.nt((where, sig0))
     acc.outcome(rule_kinds(spec))
 
 
@@ -169,6 +185,12 @@ def strategy_instances() -> List[Tuple[str, List[Any]]]:
     variants("SwapLetters", dw.SwapLetters)
     variants("VerifyByPrefix(a,b)", lambda: dw.VerifyByPrefix(("a", "b")))
     variants("VerifyByPrefix(e)", lambda: dw.VerifyByPrefix(("",)))
+    # factories are strategies of a pack too (StrategyFactory has its own __eq__)
+    variants("ExpandFactory(1,2)", lambda: dw.ExpandFactory((1, 2)))
+    variants("ExpandFactory(2)", lambda: dw.ExpandFactory((2,)))
+    variants("RuleFactory", dw.RuleFactory)
+    variants("RuleFactory(ff)", lambda: dw.RuleFactory(foreign_first=True))
+    variants("GenericExpandFactory(1,2)", lambda: dw.GenericExpandFactory((1, 2)), [dw.GenericExpandFactory[dw.W]((1, 2)), dw.GenericExpandFactory[dw.W]()])
     variants("Unfold", dg.Unfold)
     variants("Factor", dg.Factor)
     variants("Unit", dg.Unit)
@@ -191,6 +213,19 @@ def _worker_strategies(arg) -> Acc:
         for (n2, v2) in groups:
             if n1 != n2 and v1[0] == v2[0]:
                 acc.violation("different-strategies-equal", "AbstractStrategy.__eq__", f"{n1}=={n2}", f"{n1} == {n2}", {"kind": "strategies"})
+    # a pack holding an instance created through a subscripted alias
+    from comb_spec_searcher import StrategyPack
+
+    for fac in (dw.GenericExpandFactory((1, 2)), dw.GenericExpandFactory[dw.W]((1, 2))):
+        pack = StrategyPack([], [], [[fac]], [dw.WordAtom()], "gfac")
+        acc.count("evaluations")
+        try:
+            back = StrategyPack.from_dict(rt(pack.to_jsonable()))
+            if not (pack == back and back == pack):
+                acc.violation("pack!=round-trip", "StrategyPack.from_dict", "gfac" + ("[alias]" if hasattr(fac, "__orig_class__") else ""),
+                              f"pack with {fac!r} (created {'through a subscripted alias' if hasattr(fac, '__orig_class__') else 'directly'}) != its JSON round trip", {"kind": "strategies"})
+        except Exception as e:  # noqa: BLE001
+            acc.violation("round-trip-raises", call_site(e), "gfac", f"{type(e).__name__}: {str(e)[:200]}", {"kind": "strategies"})
     acc.sample({"strategy_groups": [n for n, _ in groups][:8], "ways": "constructor x2, from_dict, copy, deepcopy, pickle, subscripted alias"})
     return acc
 
